@@ -23,9 +23,12 @@ CmpExpected(o) == LET A == NormS(Signed(o.a)) B == NormS(Signed(o.b)) IN
   CASE o.op = "<" -> SLt(A, B) [] o.op = ">" -> SLt(B, A) [] o.op = "=" -> A = B [] o.op = "<>" -> A # B
     [] o.op = "<=" -> ~SLt(B, A) [] o.op = ">=" -> ~SLt(A, B)
 IsCmp(o) == o.op \in {"<", ">", "=", "<>", "<=", ">="}
+(* & joins an integer as its digits (C06), whatever its size: o.txt is the observed text, o.suffix the text operand *)
+JoinExpected(o) == (IF o.a.neg THEN <<45>> ELSE <<>>) \o o.a.ds \o o.suffix
 Same(x, e) == x.int /\ NormS([neg |-> x.neg, m |-> BOfDigits(x.ds)]) = e
 Failing(o) ==
-  IF IsCmp(o) THEN (IF o.truth = "TRUE" /\ CmpExpected(o) THEN <<>> ELSE IF o.truth = "FALSE" /\ ~CmpExpected(o) THEN <<>>
+  IF o.op = "&" THEN (IF o.txt = JoinExpected(o) /\ o.txt2 = o.suffix \o (IF o.a.neg THEN <<45>> ELSE <<>>) \o o.a.ds THEN <<>> ELSE <<"digits_joined">>)
+  ELSE IF IsCmp(o) THEN (IF o.truth = "TRUE" /\ CmpExpected(o) THEN <<>> ELSE IF o.truth = "FALSE" /\ ~CmpExpected(o) THEN <<>>
                     ELSE <<"numeric_order">>)
   ELSE
   (IF ~Same(o.out, Expected(o)) THEN <<"exact_value">> ELSE <<>>)
